@@ -88,8 +88,9 @@ func (g *Global) String() string {
 
 // Type returns the type of the global variable.
 func (g *Global) Type() types.Type {
-	// Cache type if not present.
-	if g.Typ == nil {
+	// Cache type if not present; recompute it if the address space was set
+	// after the type was cached (as done by ir.NewGlobal).
+	if g.Typ == nil || g.Typ.AddrSpace != g.AddrSpace {
 		g.Typ = types.NewPointer(g.ContentType)
 		g.Typ.AddrSpace = g.AddrSpace
 	}
